@@ -629,6 +629,8 @@ def run_C16(tier):
     n_w = 0
     try:
         n_w = witness_C16(viol)
+        from .envmc import periodic_pool_witness
+        n_w += periodic_pool_witness(viol)
     except ImportError:
         pass
     violations = [Violation('C16', sig, msg, rep) for sig, (msg, rep) in sorted(viol.items())]
@@ -678,7 +680,11 @@ def replay(prop, path):
     else:
         viol = {}
         stats = dict(evaluations=0, multisets=0, cases=set())
-        if r.get('kind') == 'ordered':
+        if r.get('kind') in ('witness', 'poolwitness'):
+            from .envmc import periodic_pool_witness
+            witness_C16(viol)
+            periodic_pool_witness(viol)
+        elif r.get('kind') == 'ordered':
             ordered_periodic_sets(viol, stats)
         elif 'center' in r:
             check_transform([r['center']], 64, viol, stats)
